@@ -5,6 +5,7 @@ import Pxv.Lemmas.Complex
 import Pxv.Lemmas.PassesSilent
 import Pxv.Lemmas.ComplexCloneable
 import Pxv.Lemmas.McCloneable
+import Pxv.Lemmas.MwbCloneable
 import Pxv.Model.BorrowCheck
 /-!
 C02 — rule-abiding blueprints are accepted: the ordering step never gets stuck.
@@ -548,6 +549,21 @@ theorem multiple_consumers_accepts_when_contended_values_cloneable {g : Graph} (
 example : mcCloneable ⟨[{ cloneable := true }, {}, {}, {}], [⟨0, 1, .move⟩, ⟨0, 2, .move⟩, ⟨1, 3, .move⟩, ⟨2, 3, .move⟩]⟩ = true ∧
     (multipleConsumers ⟨[{ cloneable := true }, {}, {}, {}], [⟨0, 1, .move⟩, ⟨0, 2, .move⟩, ⟨1, 3, .move⟩, ⟨2, 3, .move⟩]⟩).1.size = 5 ∧
     (multipleConsumers ⟨[{}, {}, {}, {}], [⟨0, 1, .move⟩, ⟨0, 2, .move⟩, ⟨1, 3, .move⟩, ⟨2, 3, .move⟩]⟩).2.length = 1 := by decide
+
+/-- **C02 — `move_while_borrowed` never rejects an application without `&mut` inputs whose by-value inputs are Copy or
+    clone-if-necessary**: on every well-formed call graph of that kind the pass reports nothing, for any number of nodes and
+    any pattern of borrows below a move (it clones there). With the three theorems above, each of the four passes of the
+    borrow checker is proved never to report on the call graphs of C02's fourth alternative it is handed. (The hypothesis of
+    each theorem is about the graph THAT pass receives; that the clones of one pass keep the next pass's hypothesis is
+    observed per graph by the correspondence, not proved.) -/
+theorem move_while_borrowed_accepts_when_by_value_inputs_cloneable {g : Graph} (hwf : g.wellFormed = true)
+    (hq : mwbCloneable g = true) : (moveWhileBorrowed g).2 = [] :=
+  moveWhileBorrowed_no_diag hwf hq
+
+-- non-vacuity: a clone-if-necessary value (0) moved into 2 and borrowed by 3 below it: a clone, no diagnostic; never-clone: reported
+example : mwbCloneable ⟨[{ cloneable := true }, { cloneable := true }, { cloneable := true }, {}], [⟨0, 2, .move⟩, ⟨2, 3, .move⟩, ⟨0, 3, .shared⟩, ⟨1, 3, .move⟩]⟩ = true ∧
+    (moveWhileBorrowed ⟨[{ cloneable := true }, { cloneable := true }, { cloneable := true }, {}], [⟨0, 2, .move⟩, ⟨2, 3, .move⟩, ⟨0, 3, .shared⟩, ⟨1, 3, .move⟩]⟩).1.size = 5 ∧
+    (moveWhileBorrowed ⟨[{}, {}, {}, {}], [⟨0, 2, .move⟩, ⟨2, 3, .move⟩, ⟨0, 3, .shared⟩, ⟨1, 3, .move⟩]⟩).2.length = 1 := by decide
 
 /-! ### the whole borrow checker on rule-abiding call graphs -/
 
